@@ -25,6 +25,9 @@ CHECKS = {
  "C10": dict(level=MC, design="§4 C10", technique="the C09 explicit-state BFS to a fixpoint with the footprint criterion in every transition + loop programs at n, 4n, 16n",
     text="In every transition of the fixpoint search: if the allocation frontier advanced, no reusable, deferred or waiting block may remain (fresh memory only when both lists are empty), and along every discovered path blocks-below-frontier <= peak reachable + 2. Loop programs of six shapes (lists, shared lists, closures, trees, multi-block records) run at n, 4n, 16n iterations on all three backends: the frontier must be identical.",
     note="as C09"),
+ "C11": dict(level=MC, design="§4 C11", technique="complete enumeration of substitution configurations (all maps m,n<=5 x kinds x offsets x 3 backends); each compiled by the real code generator and executed; post-state compared with the simultaneous-assignment model",
+    text="Every configuration in the stated finite space is executed: simultaneous assignment of both temporaries, count arithmetic, exactly-once release of dropped last references, and a frame condition on everything else. Thorough tier completes n,m <= 5 (exhaustive: true).",
+    note="emulators as C06-C08; the pre-state is constructed by the harness on top of the real post-prologue machine state"),
  "C13": dict(level=MC, design="§4 C13", technique="bounded-exhaustive enumeration of programs with prints at 0..22 live variables; every emulated execution under a calling-convention model with definedness tracking",
     text="All executions of the linear AxCut families on x86-64 and AArch64 run under the external-call model: alignment at every call (every SP access on AArch64), caller-saved registers / flags / LR / stack below SP become undefined at each print call and may not reach a branch, address, jump target, print argument or the result; callee-saved registers and SP compared with entry sentinels at return.",
     note="register classes from the System V x86-64 and AAPCS64 documents; print runtime modelled as an arbitrary conforming callee"),
